@@ -743,7 +743,7 @@ func genStream(t *rapid.T, label string, max int) Stream {
 		s.Size = rapid.SampledFrom([]int{4095, 4096, 4097, 8192, 32768, 65536, 65537}).Draw(t, label+"_size")
 	case 6:
 		// past the limits the standard library applies to message heads (1 MiB)
-		s.Size = rapid.SampledFrom([]int{1<<20 - 1, 1<<20 + 1, 1<<20 + 70000, 3 << 20}).Draw(t, label+"_size")
+		s.Size = rapid.SampledFrom([]int{1<<20 - 1, 1<<20 + 1, 1<<20 + 70000, kit.N(1<<20+4096, 3<<20)}).Draw(t, label+"_size")
 	default:
 		s.Size = rapid.IntRange(1, max).Draw(t, label+"_size")
 	}
